@@ -106,7 +106,7 @@ Verdict(name, x, g) ==
     [] name = "C08_MintBound"            -> V(C08_MintBound_app(x), C08_MintBound(x, g.cfg))
     [] name = "C08_ClaimExact"           -> V(C08_ClaimExact_app(x), C08_ClaimExact(x))
     [] name = "C09_ModelChangeAuthorised"-> V(C09_app(x), C09_ModelChangeAuthorised(x, g))
-    [] name = "C09_PermissionApplied"    -> V(Kind(x) = "Permission" /\ Ok(x), C09_PermissionApplied(x))
+    [] name = "C09_PermissionApplied"    -> V((Kind(x) = "Permission" \/ Kind(x) = "Store") /\ Ok(x), C09_PermissionApplied(x))
     [] name = "C10_CompleteByAssignee"   -> V(C10_CompleteByAssignee_app(x), C10_CompleteByAssignee(x))
     [] name = "C10_NodeSelfOnly"         -> V(C10_NodeSelfOnly_app(x), C10_NodeSelfOnly(x))
     [] name = "C10_CancelByCreator"      -> V(C05_app(x), C10_CancelByCreator(x))
